@@ -105,7 +105,7 @@ def extract_operator(cls, cname, mname):
         raise Untranslatable(f'{cname}.{mname} not found')
     f = dict(cls=cname, coordTarget='', coordCols=[], coordOp='', connOp='', connCols=[], unitsOp='', compact=False,
              clearRecv='', clearExclude=[], dropsKdTree=False, reqLen=0, slices3=False, returns='', copyGuard=False,
-             somaRadiusOp='', line=fn.lineno)
+             somaRadiusOp='', pads3=False, line=fn.lineno)
     res_name = None
     order = []
     for n in ast.walk(fn):
@@ -168,6 +168,13 @@ def extract_operator(cls, cname, mname):
         if isinstance(n, ast.Assign) and len(n.targets) == 1 and _src(n.targets[0]) == 'other' and _src(n.value) == 'other[:3]':
             f['slices3'] = True
             order.append(('slice', n.lineno))
+        # if len(other) == 3: other = np.append(other, other[0])   (x/y/z only: the radius is scaled like x)
+        if isinstance(n, ast.If) and isinstance(n.test, ast.Compare) and len(n.test.ops) == 1 \
+                and isinstance(n.test.ops[0], ast.Eq) and _src(n.test.left) == 'len(other)' and _lit(n.test.comparators[0]) == 3:
+            for b in n.body:
+                if isinstance(b, ast.Assign) and len(b.targets) == 1 and _src(b.targets[0]) == 'other' \
+                        and _src(b.value).replace('numpy.', 'np.') == 'np.append(other, other[0])':
+                    f['pads3'] = True
         # elif len(other) != K: raise
         if isinstance(n, ast.If) and isinstance(n.test, ast.Compare) and len(n.test.ops) == 1 \
                 and isinstance(n.test.ops[0], ast.NotEq) and _src(n.test.left) == 'len(other)' \
@@ -460,6 +467,8 @@ def generate(repo: Path):
     A('  slices3 : Bool')
     A('  returns : String')
     A('  copyGuard : Bool')
+    A('  /-- `if len(other) == 3: other = np.append(other, other[0])`: x/y/z operands accepted, the radius scaled like x -/')
+    A('  pads3 : Bool')
     A('deriving DecidableEq, Repr')
     A('')
     A('def opFacts : List OpFact := [')
@@ -468,7 +477,7 @@ def generate(repo: Path):
         rows.append(f'  ⟨{_s(f["cls"])}, {_s(f["op"])}, {_s(f["coordTarget"])}, {_sl(f["coordCols"])}, {_s(f["coordOp"])}, '
                     f'{_s(f["connOp"])}, {_sl(f["connCols"])}, {_s(f["unitsOp"])}, {_b(f["compact"])}, {_s(f["clearRecv"])}, '
                     f'{_sl(f["clearExclude"])}, {_b(f["dropsKdTree"])}, {f["reqLen"]}, {_b(f["slices3"])}, {_s(f["returns"])}, '
-                    f'{_b(f["copyGuard"])}⟩')
+                    f'{_b(f["copyGuard"])}, {_b(f["pads3"])}⟩')
     A(',\n'.join(rows))
     A(']')
     A('')
